@@ -91,7 +91,7 @@ def WfFail(flag: str, mode: str, tag: str):
 
 
 PY_MODES = ["raise", "dict_missing", "dict_missing_extra", "tuple_short", "tuple_long", "none"]
-SH_MODES = ["exit", "exit_with_file", "nofile"]
+SH_MODES = ["exit", "exit_with_file", "nofile", "sigkill", "sigterm"]   # sig*: the command dies from a signal
 WF_MODES = ["raise", "tuple_short", "dict_missing"]
 MAY_MODES = {"none", "nofile"}
 MISSING_DICT = {"dict_missing", "dict_missing_extra"}
@@ -210,7 +210,7 @@ def decide(case, wctx):
             if ran != 1:
                 bad.append({"step": i, "why": "failing task was not executed (again) on this submission: "
                             f"{ran} body starts", "how": obs["how"]})
-            if case["mode"] in ("raise", "exit", "exit_with_file") and ("boom-" + case["tag"]) not in obs["text"]:
+            if case["mode"] in ("raise", "exit", "exit_with_file", "sigkill", "sigterm") and ("boom-" + case["tag"]) not in obs["text"]:
                 bad.append({"step": i, "why": "reported failure does not carry the recorded error text",
                             "text": obs["text"][-300:], "how": obs["how"]})
             leaf_ok = sorted(k.split("-")[0] for k, v in st.items() if v is False and not k.startswith("workflow"))
